@@ -14,9 +14,9 @@ CHECKS = {
     "C02": dict(engine="ccmc-explorer", design="§4 C02", technique=MC,
                 text="Same exploration as C01 with the completeness predicate: after every quiescent collect_cycles() and in an epilogue probe run on every explored state (drop all handles, collect until no callback runs) the set of unreachable, un-pinned objects must be empty and allocated_bytes() must equal the allocator's live managed bytes.",
                 note="Must-reclaim set computed by a reference reachability model (pinned = reachable through an untraced field of an unreclaimed object); nofin build explored separately because collect() is single-pass there."),
-    "C03": dict(engine="ccmc-explorer", design="§4 C03", technique=MC,
+    "C03": dict(engine="ccmc-explorer+ccmc-mini", design="§4 C03", technique=MC + "; plus enumeration of all operation histories up to a depth for each payload type of a (size, align) grid",
                 text="The instrumented global allocator judges every dealloc (known block, not yet freed, identical size and align) and quarantines freed blocks; Drop callbacks are counted per object; dropped-implies-freed-before-return is checked after every operation of every explored history, including weak side records, try_unwrap and the new_cyclic panic path.",
-                note="Payload layout: one payload type so far (the layout grid engine is not built yet); freed blocks are quarantined per execution so reuse cannot hide a double free."),
+                note="Layouts: a grid (alignments 1..4096 x sizes 0..4096+, 20 types in quick, 182 in thorough), not all combinations; freed blocks are quarantined per execution so reuse cannot hide a double free."),
     "C04": dict(engine="ccmc-explorer", design="§4 C04", technique=MC,
                 text="After every operation of every explored history strong_count() of every reachable object must equal the model's handle count, and an object whose count reached 0 must have been finalized, dropped and freed before the call returned (recursively) - whatever buffering/marking earlier collections left behind.",
                 note="After a caught callback panic only '>=' is demanded (the statement permits leaks), and only inside C07's runs."),
@@ -56,6 +56,15 @@ CHECKS = {
     "C16": dict(engine="ccmc-explorer", design="§4 C16", technique=MC + " (macro-operations park clones up to MAX-k, then every operation sequence up to the depth bound is explored around the boundary)",
                 text="At MAX-k..MAX for both counters: clone/upgrade/downgrade/Weak::clone at the limit must panic with strong_count, weak_count, already_finalized and both header words unchanged; the object must still be reclaimed once (finalize once, drop once, free once) by the epilogue.",
                 note="Only the neighbourhood of the limits is branched on."),
+    "C17": dict(engine="ccmc-probes+ccmc-mini", design="§4 C17", technique="bounded-exhaustive enumeration of container instances with counting probe leaves driven by real collections (per trace invocation), plus explicit enumeration of all operation histories up to a depth for one payload type per (container kind, position)",
+                text="(a) Probe grid: tuples 1..12, arrays 0..32, Vec/boxed slices 0..8, Box, Option Some/None, Result Ok/Err, RefCell free/borrowed/mutably borrowed, ManuallyDrop, AssertUnwindSafe, PhantomData, Weak, Cleaner, Cleanable and all 12x12 two-level nestings: every probe present must be reported exactly once per Trace::trace invocation made by a real collection, and Finalize must forward exactly once. (b) For 131 (container, position) payload types the mini explorer enumerates every history over {new, dup, drop, link, unlink, collect, try_unwrap}: a skipped position leaves a cycle unreclaimed, a doubly reported one destroys a live object.",
+                note="Positions: all tuple positions; arrays/Vec at first/middle/last of selected lengths; 20 nestings in (b), 144 in (a)."),
+    "C18": dict(engine="derive-check", design="§4 C18", technique="bounded-exhaustive enumeration of generated type definitions compiled against /repo/derive and executed with counting probes; compile probes for the Drop emission judged from rustc's JSON diagnostics",
+                text="Structs: unit, tuple and named with 0..8 fields x every ignore mask (quick: all masks up to 4 fields, selected masks beyond), generic structs and enums, ignored fields of non-Trace types; enums: every sequence of 1..2 (thorough: 1..4, 4680 enums) variants from a menu of 8 variant shapes, every variant instantiated. Each field's probe must be visited exactly once per trace invocation iff neither it nor its variant is ignored; derived Finalize must call nothing. 9 type kinds with a user Drop must each be rejected with E0119; with unsafe_no_drop they must compile and run their Drop.",
+                note="Enumeration of an input space (no state space); field types cycle through 5 container shapes."),
+    "C20": dict(engine="ccmc-explorer+ccmc-mini+fwd", design="§4 C20", technique=MC + " for address stability/ptr_eq; layout grid through the mini explorer; exhaustive enumeration of ordered value pairs for the forwarding impls",
+                text="Every walk re-derives each reachable object's address through Deref, AsRef and Borrow and compares it with the address sealed at creation, the box range and the alignment; ptr_eq is compared with model identity for all handle pairs; the same on a grid of (size, align) payload types incl. zero-sized over-aligned ones; eq ne lt le gt ge partial_cmp cmp max min hash Debug Display Default on Cc<T> vs T for all ordered pairs of small complete value sets (f64 incl. NaN, +-0, +-inf), both for distinct allocations and for a pointer and its own clone.",
+                note="Layouts: a grid (13 alignments x up to 14 size points), not all combinations; value sets are small."),
 }
 
 
@@ -91,6 +100,10 @@ def main():
             "add_only": True,
         },
         "engines": [
+            {"name": "ccmc-mini", "path": "harness/src/mini.rs, grid.rs, containers_gen.rs (generated by harness/gen/gen_containers.py)", "serves_properties": ["C03", "C13", "C17", "C20"], "kind_free_text": "enumeration of all operation histories up to a depth, generic over the payload type (layout grid, container positions)"},
+            {"name": "ccmc-probes", "path": "harness/src/containers.rs", "serves_properties": ["C17"], "kind_free_text": "probe grid over the built-in Trace/Finalize impls"},
+            {"name": "fwd", "path": "harness/src/fwd.rs", "serves_properties": ["C20"], "kind_free_text": "all ordered value pairs for the forwarding trait impls"},
+            {"name": "derive-check", "path": "lib/gen_derive.py, derive_check/", "serves_properties": ["C18"], "kind_free_text": "generated type definitions compiled against /repo/derive"},
             {"name": "ccmc-policy", "path": "harness/src/policy.rs, harness/src/bfs.rs", "serves_properties": ["C15"], "kind_free_text": "explicit-state BFS over the real auto-collect policy with a reference policy oracle"},
             {"name": "ccmc-explorer", "path": "harness/src (explore.rs, world.rs, world_ops.rs, alloc.rs, lens.rs)", "serves_properties": sorted(k for k, v in CHECKS.items() if "ccmc-explorer" in v["engine"]), "kind_free_text": "explicit-state BFS over the real crate by history replay; fault forking; crash isolation"},
         ],
